@@ -222,6 +222,58 @@ def config_key(o):
                                            "+".join(o.get("flags", [])) or "-", o.get("warm", "prev"), "/imp" if "impratio" in o else "")
 
 
+def qcqp_false_unconstrained(L, m, d, af, nefc, force, i, dim, contact):
+    """mechanism confirmation for the known finding 'mju_QCQP reports unconstrained with a point outside the ellipsoid, solveQCQP then
+    skips the projection'. The friction sub-problem that the last dual sweep (noslip if enabled, else PGS) solved for the elliptic
+    block starting at row i is recovered from the engine's efc_AR / efc_b / efc_R and the final efc_force exactly as
+    solNoSlip / solPGS build it (Ac = AR block [- R on the diagonal, clamped at 1e-10 for noslip]; bc = b_t + AR[t,:] f [- R f_t] -
+    Ac f_t), and replayed through the engine's own mju_QCQP with the contact's friction vector and the final normal force as radius.
+    Confirmed iff mju_QCQP returns 0 ('unconstrained', so solveQCQP does not project) while its result lies OUTSIDE the ellipsoid:
+    with val > 0 the only exit of the multiplier iteration at la == 0 is the absolute test 'delta < 1e-10', i.e. the described
+    defect. Returns (confirmed, evidence dict)."""
+    ev = {}
+    try:
+        n = dim - 1
+        if n != 5:
+            return False, {"reason": "not a condim-6 block"}
+        noslip = int(m.opt["noslip_iterations"]) > 0
+        rows = np.arange(i + 1, i + dim)
+        b = np.array(d.arena("efc_b", af)).ravel()[:nefc]
+        R = np.array(d.arena("efc_R", af)).ravel()[:nefc]
+        raw = np.array(d.arena("efc_AR", af)).ravel()
+        ARt = np.zeros((n, nefc))
+        if L.call("mj_isSparse", m):
+            nnz = np.array(d.arena("efc_AR_rownnz", af)).ravel()
+            adr = np.array(d.arena("efc_AR_rowadr", af)).ravel()
+            col = np.array(d.arena("efc_AR_colind", af)).ravel()
+            for k, r in enumerate(rows):
+                a, c = int(adr[r]), int(nnz[r])
+                np.add.at(ARt[k], col[a:a + c], raw[a:a + c])
+        else:
+            for k, r in enumerate(rows):
+                ARt[k] = raw[r * nefc:(r + 1) * nefc]
+        if not (np.isfinite(ARt).all() and np.isfinite(b).all()):
+            return False, {"reason": "efc_AR / efc_b not finite"}
+        ft = force[rows]
+        Ac = ARt[:, rows].copy()
+        res = b[rows] + ARt @ force
+        if noslip:
+            Ac[np.arange(n), np.arange(n)] = np.maximum(1e-10, np.diag(Ac) - R[rows])
+            res = res - R[rows] * ft
+        bc = res - Ac @ ft
+        mu = np.ascontiguousarray(np.asarray(contact["friction"], dtype=np.float64)[:n])
+        r = float(force[i])
+        out = np.zeros(5)
+        flag = int(L.call("mju_QCQP", out, np.ascontiguousarray(Ac), np.ascontiguousarray(bc), mu, r, n))
+        ratio = float(np.sqrt(((out / mu) ** 2).sum()) / r) if r > 0 else float("inf")
+        ev = {"last_dual_sweep": "noslip" if noslip else "PGS", "mju_QCQP_return": flag, "replayed_weighted_norm_over_radius": ratio,
+              "scaled_matrix_max": float(np.abs(Ac * np.outer(mu, mu)).max()), "radius": r,
+              "engine_vs_replayed_tangential_relative_difference": float(np.abs(out - ft).max() / (np.abs(ft).max() + 1e-300))}
+        return bool(flag == 0 and np.isfinite(ratio) and ratio > 1 + 1e-6), ev
+    except Exception as ex:                                   # evidence not obtainable => not confirmed
+        return False, dict(ev, reason="confirmation failed: %r" % (ex,))
+
+
 # ---- the monitor ----------------------------------------------------------------------------------------------------------
 def monitor(L, m, d, P, witness, tag):
     """all C11 observations on the mjData as left by mj_forward; returns (nefc, n_restricted_rows)"""
@@ -266,6 +318,17 @@ def monitor(L, m, d, P, witness, tag):
         if sig.startswith("elliptic-contact-friction-outside-cone"):
             # forces come from the dual path (PGS / noslip: per-contact QCQP + ellipsoid projection) or from the primal state function
             sig = "%s:%s:condim%d" % (sig, "after-dual-qcqp" if dual else "primal-state-function", info["dim"])
+            if dual and info["dim"] == 6:
+                # known finding findings/C11-qcqp-false-unconstrained-leaves-cone.md: relabel ONLY if the mechanism is confirmed on
+                # this very block (replay of the recovered friction sub-problem through the engine's mju_QCQP); otherwise the generic
+                # signature above stays (audit B1)
+                ok, ev = qcqp_false_unconstrained(L, m, d, af, nefc, force, info["row"], info["dim"], con[info["contact"]])
+                info = dict(info, qcqp_replay=ev)
+                if ok:
+                    sig += ":mju_QCQP-false-unconstrained"
+                    P.count("cone_violation_confirmed_as_qcqp_false_unconstrained")
+                else:
+                    P.count("cone_violation_condim6_dual_mechanism_not_confirmed")
         if sig not in seen_sig and len(seen_sig) < 4:
             seen_sig.add(sig)
             viol(sig, eps=eps, noslip=int(m.opt["noslip_iterations"]), solver=int(m.opt["solver"]), **info)
